@@ -148,6 +148,9 @@ def run(chk):
     chk.cov["traces_validated_against_impl"] = total
     with open(chk.path("rec_aggressive.ndjson")) as f:
         chk.cov["samples"].append({"source": "recorded run", "events": [json.loads(next(f)) for _ in range(16)]})
+    if chk.tier == "thorough":
+        # beyond TLC's bounds: inductive invariant by Apalache (any sets of <= 8 processes) + TLAPS proof (any size); recorded, never decides
+        vlib.run_unbounded(chk, "dsdagg")
     chk.cov["rule"] = ("TLC: all interleavings of 2-3 updaters (increment / absolute / gauge / histogram programs) with up to 3-4 flushes at "
                        "atomic-step granularity; implementation: scheduled random runs per aggregation mode (distinct = distinct event "
                        "sequences), TLC schedules replayed, end-to-end runs over udp / unixgram / unix-stream sockets")
